@@ -180,7 +180,7 @@ PROPS = {
     "C15": dict(
         kani=["c15_hash_file_ok", "c15_hash_file_notfound", "c15_hash_file_denied", "c15_hash_file_other",
               "c15_hash_transformed_ok", "c15_hash_transformed_notfound", "c15_hash_transformed_denied", "c15_hash_transformed_other"],
-        verus=[],
+        verus=["scan_loop"],
         prefixes=["C15."],
         category="proof",
         trust=["A1 verifiers", "FileHasher::hash_file / hash_transformed are replaced by stubs returning Ok / Err(NotFound) / Err(PermissionDenied) / Err(Other): "
@@ -215,7 +215,7 @@ PROPS = {
     ),
     "C01": dict(
         kani=[],
-        verus=["stage_chunks"],
+        verus=["stage_chunks", "scan_loop"],
         prefixes=["C01."],
         category="proof",
         trust=[],
